@@ -396,7 +396,7 @@ class dir_archive(archive):
     __ne__.__doc__ = dict.__ne__.__doc__
     def __delitem__(self, key):
         try:
-            memo = {key: None}
+            memo = {key: None} if self.__contains__(key) else {}
             self._rmdir(key)
         except:
             memo = {}
@@ -738,6 +738,7 @@ class file_archive(archive):
             os.chdir(root)
             string = "from %s import memo as %s; sys.modules.pop('%s')" % (file, name, file)
             try:
+                sys.path.insert(0, root) # the current directory need not be on sys.path
                 exec(string, globals()) #FIXME: unsafe, potential name conflict
                 memo = globals().get(name, {}) #XXX: error if not found ?
                 globals().pop(name, None)
@@ -745,6 +746,7 @@ class file_archive(archive):
                 memo = {}
                #raise OSError("error reading file archive %s" % filename)
             finally:
+                sys.path.remove(root)
                 os.chdir(curdir)
         return memo
     def __save__(self, memo=None):
